@@ -253,7 +253,7 @@ static void emitPJ(Rng & rng) {
 
 // ---------------------------------------------------------------- case table
 static const long kFixed = 16;
-long verif::verif_ncases(const std::string & tier) { return kFixed + (tier == "thorough" ? 9000 : 900); }
+long verif::verif_ncases(const std::string & tier) { return kFixed + (tier == "thorough" ? 25000 : 900); }
 
 void verif::verif_case(Rng & rng, long idx, const std::string & tier) {
     if (idx == 0) { runSolver(rng, 5, witnessQmdp(), 2); return; }           // known finding witness
